@@ -166,16 +166,52 @@ def check_complete(F, bodies, V3):
                     else:
                         V3.violation(('complete-unguarded', b.path), 'Complete is stored at %s without dominating comparisons of the received counters/sizes (conditions: %s)' % (b.loc(s.sp), joined[:160]), where=b.loc(s.sp))
     V3.floor('stores of FileTransferState::Complete', n, 2)
-    # size comparison must exist in check_finished on the non-FLFI branch
+    # on the data path (from_flfi == false) Complete requires, on every path, the true edge of an *equality* test
+    # file_size == recvd_payload or file_size == 0 (unknown size); an inequality lets a resized last package through
+    from paths import Explorer
     cf = [b for b in bodies if b.path.endswith('FileTransfer::check_finished')]
     for b in cf:
         cfg = CFG(b)
         E = ExprBuilder(cfg)
-        texts = [show(E.switch_cond(x)) for x in b.blocks if not x.cleanup and x.term.k == 'switch']
-        if any('recvd_payload' in t and 'file_size' in t for t in texts) and any('file_size' in t and 'Eq' in t and ', 0)' in t for t in texts):
-            V3.ok(sample={'check_finished': 'compares file_size with recvd_payload (or file_size == 0)'})
-        else:
-            V3.violation(('size-comparison-missing', b.path), 'check_finished no longer compares the announced file size with the received payload before declaring Complete', where=b.loc(None))
+
+        def eq_kind(c):
+            if not (isinstance(c, tuple) and c[0] == 'bin' and c[1] == 'Eq'):
+                return None
+            a, d = show(c[2]), show(c[3])
+            if ('file_size' in a and 'recvd_payload' in d) or ('recvd_payload' in a and 'file_size' in d):
+                return 'size'
+            if ('file_size' in a and c[3] == ('const', 0)) or ('file_size' in d and c[2] == ('const', 0)):
+                return 'unknown'
+            return None
+
+        def edge_effect(blk, tgt, facts):
+            if blk.term.k == 'switch' and ('sizeok',) not in facts:
+                k = eq_kind(E.switch_cond(blk))
+                if k:
+                    vals = blk.term.d['vals']
+                    true_edge = (blk.term.d['otherwise'] == tgt and [v for v, _ in vals] == [0]) or any(t == tgt and v != 0 for v, t in vals)
+                    if true_edge:
+                        return frozenset(facts | {('sizeok',)})
+            return facts
+        ex = Explorer(cfg, edge_effect=edge_effect, var_roots=set())
+        ex.run()
+        found = 0
+        for blk in b.blocks:
+            if blk.cleanup:
+                continue
+            for s_ in blk.stmts:
+                if s_.k == 'assign' and any(e['k'] == 'f' and e['n'] == 'state' for e in s_.place.p) and is_complete(E.rvalue(s_.rv)):
+                    data_path = any(isinstance(c, tuple) and c[0] == 'place' and c[1] == 'from_flfi' and t is False for (c, t, D) in guards.known(cfg, E, blk.i))
+                    if not data_path:
+                        continue
+                    found += 1
+                    bad = [st for st in ex.states.get(blk.i, ()) if ('sizeok',) not in st[1]]
+                    if bad:
+                        V3.violation(('size-equality-missing', b.path), 'on the data path check_finished can declare the transfer Complete at %s without the announced file size being equal to the received payload (or unknown = 0): a resized package yields a "complete" damaged file' % b.loc(s_.sp),
+                                     where=b.loc(s_.sp), witness={'block_path': ex.witness(blk.i, bad[0])})
+                    else:
+                        V3.ok(sample={'check_finished': 'Complete on the data path only after file_size == recvd_payload or file_size == 0', 'at': b.loc(s_.sp)})
+        V3.floor('Complete stores on the data path of check_finished', found, 1)
     # callers of check_finished(false) behind a state test
     for b in bodies:
         for blk in b.calls():
